@@ -444,6 +444,9 @@ class AsyncBaseClientOpenTelemetry:
         except json.JSONDecodeError as exc:
             raise GraphQLClientInvalidMessageFormat(message=message) from exc
 
+        if not isinstance(message_dict, dict):
+            raise GraphQLClientInvalidMessageFormat(message=message)
+
         type_ = message_dict.get("type")
         payload = message_dict.get("payload", {})
 
@@ -456,7 +459,7 @@ class AsyncBaseClientOpenTelemetry:
             )
 
         if type_ == GraphQLTransportWSMessageType.NEXT:
-            if "data" not in payload:
+            if not isinstance(payload, dict) or "data" not in payload:
                 raise GraphQLClientInvalidMessageFormat(message=message)
             return cast(Dict[str, Any], payload["data"])
 
@@ -682,6 +685,9 @@ class AsyncBaseClientOpenTelemetry:
             except json.JSONDecodeError as exc:
                 raise GraphQLClientInvalidMessageFormat(message=message) from exc
 
+            if not isinstance(message_dict, dict):
+                raise GraphQLClientInvalidMessageFormat(message=message)
+
             type_ = message_dict.get("type")
             payload = message_dict.get("payload", {})
 
@@ -698,7 +704,7 @@ class AsyncBaseClientOpenTelemetry:
                 )
 
             if type_ == GraphQLTransportWSMessageType.NEXT:
-                if "data" not in payload:
+                if not isinstance(payload, dict) or "data" not in payload:
                     raise GraphQLClientInvalidMessageFormat(message=message)
                 return cast(Dict[str, Any], payload["data"])
 
